@@ -449,6 +449,9 @@ func runC05(c *eng.Ctx) {
 			"size argument "+p.Desc(size)+" is not provably >= dataPageSize; facts: "+strings.Join(facts.Render(facts.At(mk)), " ; "))
 	})
 
+	// ---- 3f. an explicit reset leaves an EMPTY queue at the new position: appended and acknowledged both become seq --------------------
+	c.Rule("PASS", qT+".SetAppendedSeq{appended = acknowledged = seq on every path}", func() { resetLeavesEmptyQueue(c) })
+
 	// ---- 4. LAYOUT: index entry and meta page, writer/reader agreement -----------------------
 	c.Rule("LAYOUT", "pkg/queue.index-entry", func() { layoutIndexEntry(c) })
 	c.Rule("LAYOUT", "pkg/queue.meta-page", func() { layoutQueueMeta(c) })
@@ -896,4 +899,30 @@ func sameValueIntoBothPositions(p *eng.Prog, f *ssa.Function) ssa.Value {
 		return va
 	}
 	return nil
+}
+
+// resetLeavesEmptyQueue: queue.SetAppendedSeq(seq) is the index reset of the replication handshake: everything at or below
+// seq counts as processed, nothing above it exists.  On every path both atomics are stored with the parameter itself;
+// a conditional store (only lowering, only raising) leaves acknowledged != appended, and a reopen then restores the write
+// cursor from an index entry that was never written.
+func resetLeavesEmptyQueue(c *eng.Ctx) {
+	p := c.P
+	f := c.Fn(qT + ".SetAppendedSeq")
+	seq := ssa.Value(f.Params[1])
+	for _, fld := range []string{"appendedSeq", "acknowledgedSeq"} {
+		m := func(p *eng.Prog, in ssa.Instruction) bool {
+			fa, method, call := eng.AtomicOp(in)
+			if fa == nil || method != "Store" || eng.FieldKeyOfAddr(fa) != qT+"."+fld {
+				return false
+			}
+			a := eng.CallArgs(call)
+			return len(a) == 1 && eng.Unwrap(a[0]) == seq
+		}
+		_, skip := eng.PathExists(eng.PathQuery{Fn: f,
+			Target:  func(in ssa.Instruction) bool { _, ok := in.(*ssa.Return); return ok && in.Parent() == f },
+			Blocked: func(in ssa.Instruction) bool { return m(p, in) }})
+		c.Check(!skip, "always-stored:"+fld, nil, f,
+			"SetAppendedSeq stores seq into "+fld+" on every path (unconditionally): after the reset acknowledged == appended == seq",
+			"a path returns without "+fld+".Store(seq)")
+	}
 }
